@@ -60,6 +60,11 @@ fn rec_finalize(_h: &blake3::Hasher) -> blake3::Hash {
         blake3::Hash::from_bytes(OUT)
     }
 }
+/// stands for BlakeHasher::new: the streaming state is an opaque token (update / finalize are
+/// recorders and never look at it); the real constructor reaches CPU-feature detection (inline asm)
+fn rec_new() -> BlakeHasher {
+    BlakeHasher(unsafe { core::mem::zeroed() })
+}
 fn input_is(expected: &[u8]) -> bool {
     unsafe {
         if IN_LEN != expected.len() {
@@ -153,6 +158,7 @@ pub fn k_c15_blake192_layout() {
 #[cfg_attr(kani, kani::stub(blake3::hash, rec_hash))]
 #[cfg_attr(kani, kani::stub(blake3::Hasher::update, rec_update))]
 #[cfg_attr(kani, kani::stub(blake3::Hasher::finalize, rec_finalize))]
+#[cfg_attr(kani, kani::stub(BlakeHasher::new, rec_new))]
 pub fn k_c15_blake256_hash_elements() {
     use math::{FieldElement, StarkField};
     // f64: Montgomery representation must not leak: the bytes are the canonical integers
